@@ -1026,3 +1026,7 @@ impl<P: Protocol> GenericCloud<MockDevice, P, MockSocket, MockTimeSource> {
         self.socket.address().unwrap().port() as usize
     }
 }
+
+#[cfg(vpncloud_verif)]
+#[path = "/verif/harness/hooks/cloud.rs"]
+pub mod verif;
